@@ -93,11 +93,17 @@ func (v *verifIO) readLine() string {
 }
 
 // gate announces a blocking point and waits for the parent's "go".
-func (v *verifIO) gate(ev string, n int, ids []interface{}) {
-	v.say(map[string]interface{}{"ev": ev, "n": n, "ids": ids})
+// The parent answers "go", or (only at cb-before) "fail": the wrapped callback then returns an
+// injected transient error without calling the real callback.
+func (v *verifIO) gate(ev string, n int, ids []interface{}) string {
+	var first interface{}
+	if len(ids) > 0 {
+		first = ids[0]
+	}
+	v.say(map[string]interface{}{"ev": ev, "n": n, "first": first, "count": len(ids)})
 	for {
-		if v.readLine() == "go" {
-			return
+		if l := v.readLine(); l == "go" || l == "fail" {
+			return l
 		}
 	}
 }
@@ -209,7 +215,7 @@ func verifServe(base string) {
 	walRecovery := wal.NewRecovery(walDir, lg)
 
 	icfg := &config.IngestConfig{
-		MaxBufferSize:       50000,
+		MaxBufferSize:       10000000, // no size-triggered flush either (a 65 600-row request is one of the classes)
 		MaxBufferAgeMS:      3600 * 1000, // no age-based flush: flushes happen only when scripted
 		Compression:         "snappy",
 		UseDictionary:       false,
@@ -235,7 +241,9 @@ func verifServe(base string) {
 		for _, r := range records {
 			ids = append(ids, r["v"])
 		}
-		vio.gate("cb-before", n, ids)
+		if vio.gate("cb-before", n, ids) == "fail" {
+			return fmt.Errorf("verif: injected transient replay failure")
+		}
 		err := recoveryCallback(ctx, records)
 		if err != nil {
 			cbErrs = append(cbErrs, err.Error())
@@ -247,7 +255,9 @@ func verifServe(base string) {
 		cbN++
 		n := cbN
 		ids := append([]interface{}(nil), columns["v"]...)
-		vio.gate("cb-before", n, ids)
+		if vio.gate("cb-before", n, ids) == "fail" {
+			return fmt.Errorf("verif: injected transient replay failure")
+		}
 		err := columnarCallback(ctx, database, measurement, columns)
 		if err != nil {
 			cbErrs = append(cbErrs, err.Error())
